@@ -41,7 +41,7 @@ func (v *V) evalCall(e *Env, call *ast.CallExpr) []Val {
 			}
 		}
 		if isBuiltin {
-			if !e.spec && (id.Name == "delete" || id.Name == "close") {
+			if !e.spec && (id.Name == "delete" || id.Name == "close" || id.Name == "append") {
 				// contract hooks (`at call delete#k: assert ...`) also apply to these effectful builtins
 				v.atStmts(e, call, false, map[string]Val{}, nil)
 				r := v.evalBuiltin(e, id.Name, call)
@@ -672,6 +672,16 @@ func (v *V) evalSpecBuiltin(e *Env, name string, call *ast.CallExpr) (Val, bool)
 	case "base":
 		a := e.eval(args[0])
 		return Val{T: tInt, S: v.refToIdx("(sl_base " + a.S + ")")}, true
+	case "upd":
+		// upd(a, i, x): the array a with element i replaced by x (ghost fields of array type)
+		a := e.eval(args[0])
+		at, ok := a.T.Underlying().(*types.Array)
+		if !ok {
+			panic(bindErr("upd: first argument is not an array"))
+		}
+		i := e.eval(args[1])
+		x := v.coerce(e, e.eval(args[2]), at.Elem())
+		return Val{T: a.T, S: fmt.Sprintf("(store %s %s %s)", a.S, v.toIdx(e, i), x.S)}, true
 	case "sameslice":
 		a, b := e.eval(args[0]), e.eval(args[1])
 		return boolVal(eq(a.S, b.S)), true
